@@ -782,11 +782,6 @@ unsafe impl Allocator for PageAlignedAllocator {
     unsafe fn deallocate(&self, ptr: ptr::NonNull<u8>, layout: Layout) {
         let pagesize = *PAGESIZE;
 
-        #[cfg(feature = "verif_hooks")]
-        if let Some(f) = *VERIF_RELEASE_OBSERVER.lock().unwrap() {
-            f(ptr.as_ptr() as usize, layout.size());
-        }
-
         // wipe the whole allocation, spare capacity included, before it goes
         // back to the system allocator: containers only clear the bytes they
         // consider in use, and growing a Vec releases the old buffer as it is
@@ -814,6 +809,11 @@ unsafe impl Allocator for PageAlignedAllocator {
         dryoc_mprotect_readwrite(aft_protected_region)
             .map_err(|err| eprintln!("mprotect error = {:?}", err))
             .ok();
+
+        #[cfg(feature = "verif_hooks")]
+        if let Some(f) = *VERIF_RELEASE_OBSERVER.lock().unwrap() {
+            f(ptr.add(pagesize) as usize, layout.size());
+        }
 
         #[cfg(unix)]
         {
